@@ -274,6 +274,7 @@ func (w *world) judge(x *exchange) {
 			return
 		}
 		if got != nil && got.Err != "" {
+			wit.ProxyLog = w.logs.tail(40)
 			run.Violation("exchange-aborted", wit, "exchange %s over %s %s %s: client could not complete the request: %s", s.Tag, s.Proto, s.Method, clip(s.Target), got.Err)
 			return
 		}
@@ -317,8 +318,12 @@ func (w *world) judge(x *exchange) {
 		if strings.Contains(e, "watchdog") {
 			run.Inconclusive("exchange %s: watchdog fired while reading the response: %s", desc, e)
 		} else {
-			order = append(order, "response-aborted")
-			byClass["response-aborted"] = []string{"the client did not receive a complete response: " + e}
+			class := "response-aborted"
+			if s.Proto == "h1" && s.HasBody && s.DeclareCL && s.BodyLen > 0 {
+				class = "h1-content-length-body"
+			}
+			order = append(order, class)
+			byClass[class] = []string{"the client did not receive a complete response: " + e}
 		}
 	} else if produced != nil {
 		run.Add("responses_compared_at_client", 1)
@@ -399,6 +404,7 @@ type connPlan struct {
 	batches  [][]*exchange // h1: one "batch" run sequentially
 	window   int           // h2raw: client SETTINGS_INITIAL_WINDOW_SIZE
 	lazyWU   bool
+	stress   bool // runs in the second phase, all such connections at once
 	stat     *connStat
 }
 
@@ -500,6 +506,22 @@ func (w *world) layout() []*connPlan {
 		}
 		conns = append(conns, cp)
 	}
+	// HTTP/1.1 uploads with Content-Length answered at once with a long body (see genRaceSpec)
+	nr := run.Pick(16, 64)
+	for i := 0; i < nr; i++ {
+		cp := &connPlan{id: len(conns), proto: "h1", preserve: i%2 == 1, stat: &connStat{}, stress: true}
+		var xs []*exchange
+		for k := 0; k < 100; k++ {
+			s := genRaceSpec(run.Rand(int64(1000+id)), runID, id)
+			s.Preserve = cp.preserve
+			id++
+			x := &exchange{s: s, conn: cp.stat}
+			w.reg.Store(s.Tag, x)
+			xs = append(xs, x)
+		}
+		cp.batches = [][]*exchange{xs}
+		conns = append(conns, cp)
+	}
 	return conns
 }
 
@@ -568,19 +590,27 @@ func main() {
 	}
 
 	conns := w.layout()
-	par := 6
-	sem := make(chan struct{}, par)
-	var wg sync.WaitGroup
-	for _, cp := range conns {
-		wg.Add(1)
-		sem <- struct{}{}
-		go func(cp *connPlan) {
-			defer wg.Done()
-			defer func() { <-sem }()
-			w.runConn(cp)
-		}(cp)
+	for phase := 0; phase < 2; phase++ {
+		par := 6
+		if phase == 1 {
+			par = 16
+		}
+		sem := make(chan struct{}, par)
+		var wg sync.WaitGroup
+		for _, cp := range conns {
+			if cp.stress != (phase == 1) {
+				continue
+			}
+			wg.Add(1)
+			sem <- struct{}{}
+			go func(cp *connPlan) {
+				defer wg.Done()
+				defer func() { <-sem }()
+				w.runConn(cp)
+			}(cp)
+		}
+		wg.Wait()
 	}
-	wg.Wait()
 	run.Set("max_exchanges_in_flight_on_one_connection", atomic.LoadInt32(&w.maxInFl))
 	run.Add("max_in_flight_per_connection", int64(atomic.LoadInt32(&w.maxInFl)))
 	run.Add("backend_records_total", int64(w.be.Count()))
